@@ -354,6 +354,12 @@ class MoleculeResolver:
                                                 node_to_remove,
                                                 self_loops=False)
 
+            # the merged atom cannot carry more implicit hydrogen atoms than either of
+            # its two copies; the count is read by the aromaticity correction later on
+            kept = self.molecule.nodes[node_to_keep]
+            removed = kept['contraction'][node_to_remove]
+            if 'hcount' in kept and 'hcount' in removed:
+                kept['hcount'] = min(kept['hcount'], removed['hcount'])
             # add the fragment id of the sequashed node
             self.molecule.nodes[node_to_keep]['fragid'] += self.molecule.nodes[node_to_keep]['contraction'][node_to_remove]['fragid']
             self.molecule.nodes[node_to_keep]['mapping'] += self.molecule.nodes[node_to_keep]['contraction'][node_to_remove]['mapping']
